@@ -30,11 +30,12 @@ def tlc_eval(cases, ev=None, label="KgEvalCases.tla"):
         r = run_tlc(os.path.join(d, "KgEvalCases.tla"), cfg, workers=1, extra_env={"CASE_FILE": cf}, timeout=7200, tolerate_overflow=True)
         if ev is not None:
             ev.add_tlc(label, r, "TLC evaluates KgEval.tla on every generated program (one state per program)")
-        done = 0
+        seen = set()
         for p in r.prints:
             if isinstance(p, dict) and "id" in p:
                 out[p["id"]] = (bool(p["ok"]), p["val"])
-                done += 1
+                seen.add(p["id"])
+        done = len(seen)                       # (TLC may evaluate a PrintT twice)
         if not getattr(r, "overflow", False):
             break
         # cases are evaluated in order: the first one without a result left TLC's integer range - outside the domain
